@@ -525,10 +525,12 @@ def time_evolve(psi: np.ndarray, hamiltonian: np.ndarray,
         def ode_rhs(_, y_vec):
             return rhs_matrix @ y_vec
         t_span = (0, time_difference)
-        solution = solve_ivp(ode_rhs, t_span, psi.flatten(),
-                                method=mode.value,
-                                t_eval=[time_difference])
-        result_vector = solution.y[:,0]
+        # The initial value has to be complex, otherwise the solver discards
+        # the imaginary part of the right hand side. The last stored point is
+        # the solution at the end of the time span (also for a zero duration).
+        solution = solve_ivp(ode_rhs, t_span, psi.flatten().astype(complex),
+                                method=mode.value)
+        result_vector = solution.y[:,-1]
     else:
         exponent = rhs_matrix * time_difference
         result_vector = fast_exp_action(exponent, psi.flatten(),
